@@ -5,6 +5,7 @@
 -/
 import DpapiNg.Proofs.ClientCore
 import DpapiNg.Properties.C03
+import DpapiNg.Proofs.EndToEnd
 namespace DpapiNg.C01
 open DpapiNg DpapiNg.Gkdi DpapiNg.Blob DpapiNg.Client
 
@@ -47,5 +48,64 @@ theorem protect_unprotect_dh (C : Crypto) (L : C.Laws) (data : Bytes) (keyP keyR
     nonce is read back from them unchanged. -/
 theorem gcm_parameters (iv : Bytes) (h : iv.length < 2 ^ 32) :
     ∃ p, gcmParams iv = .ok p ∧ gcmIv (some p) = .ok iv ∧ p ≠ [] := gcmParams_iv iv h
+
+/-- **Protect, then unprotect on the same cache** (the commonest use of the API), for every plaintext, SID string, clock value,
+    random draws and cache state whose seed entries are not public-key envelopes: if `ncrypt_protect_secret(data, sid,
+    root_key_identifier=rk, cache=c)` is answered from the cache with `bytes`, then `ncrypt_unprotect_secret(bytes, cache=c)`
+    returns `data` without contacting a DC.  `hcodec` is exactly C06.unpack_pack (its premises are size bounds and name validity). -/
+theorem protect_then_unprotect_same_cache (C : Crypto) (L : C.Laws) (s s1 : CState) (data sid rk bytes : Bytes) (domain : Option Bytes)
+    (timeNs : Nat) (d : Draws)
+    (hiv : d.iv.length < 2 ^ 32)
+    (hnp : ∀ k e, s.seeds k = some e → e.payload.isPublicKey = false)
+    (hl0 : ∀ k e, s.seeds k = some e → e.payload.l0 = k.2.2)
+    (hcodec : ∀ b, blobPack b true = .ok bytes → blobUnpack bytes = .ok b)
+    (hp : protectBegin C s data sid (some rk) domain timeNs d = (.done bytes, s1)) :
+    ∃ s2, unprotectBegin C s1 bytes = (.done data, s2) := by
+  unfold protectBegin at hp
+  cases hsd : targetSdOf sid with
+  | error e => simp [hsd] at hp
+  | ok sd =>
+    simp only [hsd] at hp
+    generalize hg : protectionGke C s sd rk timeNs = g at hp
+    obtain ⟨gr, sg⟩ := g
+    simp only [] at hp
+    cases gr with
+    | error e => simp at hp
+    | ok o =>
+      cases o with
+      | none => simp at hp
+      | some env =>
+        simp only [Prod.mk.injEq] at hp
+        obtain ⟨henc, hs1⟩ := hp
+        obtain ⟨l0, l1, l2, envC, hn, alg, l2Key, hr1, hr2, hcg, h1, h2, h3, henv⟩ := protectionGke_some C s sg sd rk timeNs env hg
+        obtain ⟨hseed, hle, hagain, hfacts⟩ := cacheGet_again C s sg sd rk l0 l1 l2 envC ⟨hr1, hr2⟩ hcg
+        obtain ⟨hnpC, hl0C⟩ := hfacts (fun k e' he' => ⟨hnp k e' he', hl0 k e' he'⟩)
+        subst henv
+        have hnpE : (narrowed envC.payload rk l0 l1 l2 l2Key).isPublicKey = false := hnpC
+        -- the protect side did not change the cache any further: the narrowed envelope is not later than the seed
+        have hs1' : s1 = sg := by
+          rw [← hs1]
+          simp only [hnpE, Bool.false_eq_true, if_false]
+          unfold cacheStore Cache.storeKey
+          simp only [narrowed, Client.envOf, hseed]
+          have : ¬ Cache.Pos.lt envC.pos ⟨l1, l2⟩ := by
+            unfold Cache.Pos.lt; unfold Cache.Pos.le at hle; simp only at hle ⊢; omega
+          simp only [this, if_false]
+        subst hs1'
+        cases he : encryptBlob C data (narrowed envC.payload rk l0 l1 l2 l2Key) sid d with
+        | error e => simp [he, ofR] at henc
+        | ok bs =>
+          have hbs : bs = bytes := by simpa [he, ofR] using henc
+          subst hbs
+          unfold encryptBlob at he
+          obtain ⟨b, hb, hpk⟩ := bind_eq_ok he
+          have hun := hcodec b hpk
+          have hsid := encryptBlobValue_sid C data _ sid d b hb
+          obtain ⟨k1, k2, k3, k4⟩ := encryptBlobValue_keyId C data _ sid d b hb
+          have hdec := decrypt_encrypt C L data _ envC.payload sid d b hiv hb
+            (fun kek kid hk => getKek_narrowed C envC.payload rk l0 l1 l2 hn alg l2Key d.kekRnd kek kid hnpC hl0C h1 h2 h3 hk)
+          unfold unprotectBegin
+          simp only [hun, hsid, hsd, k1, k2, k3, k4, narrowed, hagain, hdec, ofR]
+          exact ⟨_, rfl⟩
 
 end DpapiNg.C01
